@@ -205,6 +205,11 @@ func (p *provider) Stop(ctx context.Context) error {
 }
 
 func (p *provider) filter(obj any) bool {
+	if tombstone, ok := obj.(cache.DeletedFinalStateUnknown); ok {
+		// deletion noticed by a re-list only
+		obj = tombstone.Obj
+	}
+
 	// should never be of a different type. ok if panics
 	rs := obj.(*v1alpha4.RuleSet) // nolint: forcetypeassert
 
@@ -296,6 +301,10 @@ func (p *provider) deleteRuleSet(obj any) {
 	}
 
 	p.l.Info().Msg("Rule set deletion received")
+
+	if tombstone, ok := obj.(cache.DeletedFinalStateUnknown); ok {
+		obj = tombstone.Obj
+	}
 
 	// should never be of a different type. ok if panics
 	rs := obj.(*v1alpha4.RuleSet) // nolint: forcetypeassert
